@@ -55,6 +55,7 @@ fn specs(max_n: usize) -> Vec<GraphSpec> {
                         .map(|(i, (a, b))| (*a, *b, if i % 2 == 0 { Kind::Logic } else { Kind::Contains }))
                         .collect(),
                     batches: vec![],
+            add_mode: 0,
                 });
             }
             true
